@@ -461,6 +461,21 @@ pub fn corpus() -> Vec<Item> {
         let spec = crate::c17::spec_of(&c, 5);
         out.push(Item { name: name.into(), bytes: spec.write_codestream_with(&jxlw::jpeg::StreamOpts { big_blocks: Some(t), filters, ..Default::default() }), frames: 1, keyframes: 1, width: size.0 as u32, height: size.1 as u32 });
     }
+    // every small transform type, mixed with DCT8 / DCT16 / DCT32 classes; chroma-from-luma maps, varying HF multipliers,
+    // adaptive LF smoothing
+    {
+        let mk = |name: &str, size: (usize, usize), o: jxlw::jpeg::StreamOpts| {
+            let mut tp = crate::explore::Tape::default();
+            let mut c = crate::c17::cfg_from(&mut tp);
+            c.size = size;
+            c.pattern = 4;
+            let spec = crate::c17::spec_of(&c, 11);
+            Item { name: name.into(), bytes: spec.write_codestream_with(&o), frames: 1, keyframes: 1, width: size.0 as u32, height: size.1 as u32 }
+        };
+        out.push(mk("vardct-72x40-small-transforms-cfl-hfmul", (72, 40), jxlw::jpeg::StreamOpts { block_cycle: vec![1, 2, 3, 12, 13, 14, 15, 16, 17, 0, 4, 6, 7], cfl: true, hf_mul_varied: true, no_ycbcr: true, ..Default::default() }));
+        out.push(mk("vardct-264x72-mixed-2groups-lfsmooth-gab-epf", (264, 72), jxlw::jpeg::StreamOpts { block_cycle: vec![5, 8, 9, 10, 11, 18, 19, 20, 0, 4], lf_smoothing: true, filters: true, hf_mul_varied: true, ..Default::default() }));
+        out.push(mk("vardct-40x24-lfsmooth-cfl", (40, 24), jxlw::jpeg::StreamOpts { lf_smoothing: true, cfl: true, ..Default::default() }));
+    }
     // VarDCT colour with a Modular-coded alpha channel (8 and 12 bit), the second with Gabor + EPF
     for (name, bits, filters) in [("vardct-40x24-alpha8", 8u32, false), ("vardct-33x17-alpha12-gab-epf", 12, true)] {
         let mut t = crate::explore::Tape::default();
